@@ -175,6 +175,19 @@ type Runner struct {
 	expectHash string
 	lastEvents []abci.Event
 	haltPre    *Snap
+
+	// C19
+	branchMode    bool
+	branchStores  map[string]string
+	siblings      func(b *Block)
+	afterBlock    func(b *Block)
+	expectSibling *transcript
+	recordHashes  bool
+	blockHashes   []string
+
+	ApplyExportImport bool // C18 run B: perform export -> wipe -> import at the marked block boundaries
+	exportFlagSet     bool
+	exportMerged      bool
 }
 
 func NewRunner(w *World, s *Schedule, target string, mons []Monitor, kf *KnownFindings) *Runner {
@@ -369,7 +382,16 @@ func (r *Runner) Run() {
 		if b.Crash == "before_commit" {
 			r.runBlockShadowThenCrash(b)
 		}
+		if r.siblings != nil {
+			r.siblings(b)
+			if r.failed() {
+				return
+			}
+		}
 		r.runBlock(b, false)
+		if r.afterBlock != nil {
+			r.afterBlock(b)
+		}
 		if r.Halted || r.failed() {
 			return
 		}
@@ -508,6 +530,11 @@ func (r *Runner) runBlock(b *Block, shadow bool) {
 	}
 
 	root := w.CtxAt(w.Height, w.Now, proposer).WithVoteInfos(votes).WithCometInfo(simComet{ev: mis, proposer: proposer, votes: votes})
+	if r.branchMode {
+		// sibling execution: the whole block runs on a discarded branch of the committed state
+		cc, _ := root.CacheContext()
+		root = cc
+	}
 	r.RootCtx = root
 
 	// ---- BeginBlock
@@ -580,10 +607,23 @@ func (r *Runner) runBlock(b *Block, shadow bool) {
 
 	// ---- commit (or, in shadow mode, only remember the working hash)
 	if shadow {
-		r.shadowHash = hex.EncodeToString(w.App.CommitMultiStore().WorkingHash())
+		if r.branchMode {
+			r.branchStores = r.storeDigests()
+		} else {
+			r.shadowHash = hex.EncodeToString(w.App.CommitMultiStore().WorkingHash())
+		}
 		return
 	}
+	if b.ExportImport && r.ApplyExportImport && !shadow {
+		r.doExportImport()
+		if r.failed() {
+			return
+		}
+	}
 	id := w.App.CommitMultiStore().Commit()
+	if r.recordHashes {
+		r.blockHashes = append(r.blockHashes, hex.EncodeToString(id.Hash))
+	}
 	if r.expectHash != "" {
 		r.Eval("C19.c")
 		got := hex.EncodeToString(id.Hash)
@@ -1347,3 +1387,5 @@ func (r *Runner) orderSlashes(obs []SlashObs, events []abci.Event) []SlashObs {
 	}
 	return append(out, rest...)
 }
+
+func (r *Runner) storeDigestsAt() map[string]string { return r.storeDigests() }
